@@ -1,6 +1,6 @@
 #!/bin/bash
 # usage: tools/keep_seed.sh <PID> <i> <worktree>   -- confirms a sub-agent's seeded change and stores it under seeded/
-PID=$1; I=$2; WT=$3; SRC=$WT/seeded_out/$I; DST=/verif/seeded/$PID-$I
+PID=$1; I=$2; WT=$3; SRC=$WT/seeded_out/$I; DST=/verif/seeded/$PID-${4:-$I}    # optional 4th argument: index under seeded/ (second rounds)
 set -u
 cd $WT && git checkout -q -- . && git apply --check $SRC/patch.diff || { echo "patch does not apply"; exit 1; }
 bash $SRC/run.sh $WT > /tmp/seed_clean.log 2>&1; clean=$?
